@@ -587,6 +587,133 @@ def builtin_transport_sessions(base):
     return list(seen.values())[:3], n
 
 
+def builtin_mqtt_sessions(base, model_available=True):
+    """The gateway context over the built-in MQTT transport kind (MQTTClient over a fake broker
+    client): every fault position of connect — the broker refuses, or any one / two of the five
+    subscriptions fail — must propagate a transport error and leave no task behind (the receive
+    task is started inside connect), must have left the broker client's context as often as it
+    entered it, and must stop the saver; a later session with a healthy broker must work.  The
+    outcome and the client's bookkeeping are compared with the model (Mqtt.mqtt_connect)."""
+    import aiomysensors.transport.mqtt as mqtt_mod
+    from aiomqtt import MqttError
+    from common import enc_faults, enc_str
+    from props.c18 import FakeAioMqtt
+
+    fs, n = [], 0
+    d = Driver()
+    exp = []
+    positions = [("refused", True, [])] + [("none", False, [])]
+    positions += [(f"sub{i}", False, [j == i for j in range(5)]) for i in range(5)]
+    positions += [("sub1+3", False, [False, True, False, True, False]), ("all", False, [True] * 5)]
+    orig = mqtt_mod.AsyncioClient
+    try:
+        for name, enter_fails, faults in positions:
+            for with_persistence in (False, True):
+                for slow_subscribe in (False, True):
+                    n += 1
+                    loop = VLoop()
+                    loop.set_default_executor(InlineExecutor())
+                    path = os.path.join(base, f"mq{n}.json")
+                    made = []
+
+                    class Fake(FakeAioMqtt):
+                        def __init__(self, *a, **kw):
+                            super().__init__(*a, **kw)
+                            self.calls = 0
+                            self.broken = not made          # only the first client meets the faults
+                            made.append(self)
+
+                        async def __aenter__(self):
+                            if self.broken and enter_fails:
+                                raise MqttError("connection refused")
+                            return await super().__aenter__()
+
+                        async def subscribe(self, topic, **kw):
+                            k = self.calls
+                            self.calls += 1
+                            if slow_subscribe:
+                                await asyncio.sleep(0)
+                            if self.broken and k < len(faults) and faults[k]:
+                                raise MqttError("subscription refused")
+                            await super().subscribe(topic, **kw)
+
+                    mqtt_mod.AsyncioClient = Fake
+                    cl = mqtt_mod.MQTTClient("broker", 1883, in_prefix="in", out_prefix="out")
+
+                    async def main():
+                        gw = Gateway(cl, Config(persistence_file=path if with_persistence else None))
+                        res = []
+                        for attempt in (1, 2):
+                            exc = None
+                            inside = None
+                            try:
+                                async with gw:
+                                    inside = (cl._client is not None, cl._incoming_task is not None and not cl._incoming_task.done(),
+                                              made[-1].entered - made[-1].exited, len(made[-1].subscribed))
+                                    await asyncio.sleep(0)
+                            except BaseException as e:  # noqa: BLE001
+                                exc = e
+                            for _ in range(3):
+                                await asyncio.sleep(0)
+                            left = [t for t in asyncio.all_tasks() if t is not asyncio.current_task() and not t.done()]
+                            after = (cl._client is not None, cl._incoming_task is not None,
+                                     made[-1].entered - made[-1].exited if made else 0)
+                            res.append((exc, inside, left, after))
+                            for t in left:
+                                t.cancel()
+                            if name == "refused":
+                                break      # what a client does after a refused connection is not part of the property
+                        return res
+
+                    try:
+                        res = loop.run_until_complete(main())
+                    finally:
+                        loop.close()
+                    failing = enter_fails or any(faults)
+                    exc, inside, left, after = res[0]
+                    problems = []
+                    if failing and not isinstance(exc, ex.TransportError):
+                        problems.append(f"connect failed but {type(exc).__name__ if exc else 'no error'} left the context (expected a TransportError)")
+                    if not failing and exc is not None:
+                        problems.append(f"{type(exc).__name__} left a fault-free session")
+                    if left:
+                        problems.append(f"{len(left)} task(s) left running: {[t.get_coro().__qualname__ for t in left]}")
+                    if after[2] != 0:
+                        problems.append(f"the broker client's context was entered {after[2]} time(s) more than it was left")
+                    if not failing and inside != (True, True, 1, 5):
+                        problems.append(f"inside the session (client, receive task, entered, subscriptions) = {inside}")
+                    if len(res) > 1:
+                        exc2, inside2, left2, after2 = res[1]
+                        if exc2 is not None or inside2 != (True, True, 1, 5) or left2 or after2[2] != 0:
+                            problems.append(f"the next session with a healthy broker: {type(exc2).__name__ if exc2 else 'no error'}, inside {inside2}, {len(left2)} task(s) left")
+                    for pr in problems:
+                        fs.append({"kind": "oracle", "sig": "C16:builtin-mqtt",
+                                   "desc": f"MQTTClient session, connect fault '{name}' (persistence {'on' if with_persistence else 'off'}, subscriptions {'suspending' if slow_subscribe else 'immediate'}): {pr}",
+                                   "case": {"fault": name, "persistence": with_persistence, "slow_subscribe": slow_subscribe}})
+                    # model
+                    d.add(f"MQC {enc_str('in')} {1 if enter_fails else 0} {enc_faults(faults)} 0")
+                    outcome = "ok" if exc is None else ("TE" if isinstance(exc, ex.TransportError) else "RT" if isinstance(exc, RuntimeError) else type(exc).__name__)
+                    if failing:
+                        impl = f"{outcome}|t{1 if after[1] else 0}|{after[2]}"
+                    else:
+                        impl = f"{outcome}|t{1 if inside and inside[1] else 0}|{inside[2] if inside else '?'}|{inside[3] if inside else '?'}"
+                    exp.append((name, failing, impl))
+    finally:
+        mqtt_mod.AsyncioClient = orig
+    if model_available and exp:
+        for (name, failing, impl), mout in zip(exp, d.run()):
+            o, c, t, entered, nsubs = mout.split("|")
+            model = f"{o}|{t}|{entered}" if failing else f"{o}|{t}|{entered}|{nsubs}"
+            if model != impl:
+                fs.append({"kind": "corr", "sig": None,
+                           "desc": f"MQTT connect model and implementation differ at fault position '{name}': model {model}, implementation {impl} (outcome | receive task | context entries minus exits | subscriptions)",
+                           "case": {"fault": name}})
+    seen = {}
+    for f in fs:
+        seen.setdefault((f["kind"], f["desc"][:70]), f)
+    return list(seen.values())[:4], n
+
+
 def two_gateways(base):
     """Two gateways with persistence on one event loop: one leaves (or fails to connect) while the
     other stays entered; the other one keeps saving every 15 minutes and saves when it leaves."""
@@ -762,6 +889,9 @@ def run(ctx, model_available=True):
     bf, bn = builtin_transport_sessions(base)
     failures.extend(bf)
     dist["builtin_transport_sessions"] = bn
+    mf, mn = builtin_mqtt_sessions(base, model_available)
+    failures.extend(mf)
+    dist["builtin_mqtt_sessions"] = mn
     tf, tn = two_gateways(base)
     failures.extend(tf)
     dist["two_gateway_runs"] = tn
@@ -770,7 +900,7 @@ def run(ctx, model_available=True):
     for f in failures:
         seen.setdefault((f["kind"], f["sig"]), f)
     return {
-        "evaluations": dist["scenarios"] + bn + tn,
+        "evaluations": dist["scenarios"] + bn + mn + tn,
         "distinct_nontrivial": len(kinds),
         "rule": "the real Gateway context with persistence on a virtual-clock event loop with an inline executor: the owning task cancelled (task.cancel()) or timed out (asyncio.timeout) in the body 0..13 iterations after entering and after 900 / 1800 s; a second session on the same Gateway object (after a clean exit, a raising body, a failed connect; file edited between the sessions or not; 0 s .. 2 h); exit after k = 0..12 loop iterations x {clean, body raises, disconnect raises, both, connect raises} x {instant, slow} transport, and bodies lasting 1 s .. 3 h of virtual time; observed: exception leaving the context, tasks alive afterwards, file vs final registry, disconnect count, virtual times of the periodic saves; distinct = (k, wait, fault flags, saver cancelled inside a save?, exception class)",
         "samples": [str({k: v for k, v in scs[7].items() if k in ('k', 'wait', 'connect_fails', 'body_raises', 'disconnect_fails')})],
